@@ -215,7 +215,8 @@ def make(prop, i, tier):
     spec = SPECS[prop]
     seed = common.run_seed(i)
     rng = random.Random(seed)
-    cfg = E.swarm_config(rng, spec["policies"], ttls=(600, 3600), max_nodes=1)
+    cfg = E.swarm_config(rng, spec["policies"], ttls=(600, 3600), max_nodes=1,
+                         transports=("asyncio", "asyncio", "blocking"))
     scn, models, skipped = E.gen_multi(rng, spec["families"], tier, spec["max_exec"], cfg, types=spec["types"],
                                        accept=spec["accept"])
     if prop == "C09":
@@ -235,6 +236,8 @@ def run_one(item, extra):
             return run_loop(prop, item[1])
         if kind == "hand":
             return run_hand(prop, item[1])
+        if kind == "plain-input":
+            return run_plain_input(prop, item[1])
         if kind == "caught":
             return run_caught(prop, item[1])
         if kind == "near-deadline":
@@ -428,6 +431,23 @@ def run_near_deadline(prop, i):
     return check(prop, scn, seed, extra_probes={"branch-failure-near-the-execution-deadline": 1}, judge_all=True)
 
 
+def run_plain_input(prop, i):
+    """Inputs that are not objects - arrays, scalars, and the ones that are falsy in Python ([] 0 false "") - through
+    both front ends: the history begins with exactly that input and the states pass it on."""
+    seed = common.run_seed(8600000 + i)
+    rng = random.Random(seed)
+    fn_arn = E.GM.FN_ARN
+    inp = rng.choice([[], 0, False, "", [1, 2], "text", 5, 2.5, True, [[]], [0], {"a": None}, {}])
+    d = {"StartAt": "P", "States": {"P": {"Type": "Pass", "Next": "T"},
+                                    "T": {"Type": "Task", "Resource": fn_arn + "echo", "Next": "S"},
+                                    "S": {"Type": "Succeed"}}}
+    cfg = E.swarm_config(rng, ALL_POLICIES, ttls=(600,), max_nodes=1, transports=("asyncio", "blocking"))
+    scn = {"machines": {"m0": {"definition": d, "type": "STANDARD", "family": "plain-input"}},
+           "executions": [{"machine": "m0", "input": inp, "name": "e0"}],
+           "script": {"echo": [{"ok": {"op": "echo"}, "delay": 0.5}]}, "functions": ["echo"], "config": cfg}
+    return check(prop, scn, seed, extra_probes={"non-object-input": 1}, judge_all=True)
+
+
 def run_loop(prop, i):
     seed, scn = loop_scenario(i)
     return check(prop, scn, seed, extra_probes={"fan-out-re-entered-in-a-loop": 1}, judge_all=True)
@@ -474,7 +494,8 @@ def main_for(prop, argv, extra_items=()):
                  for k in range(reps)] + [("near-deadline", j) for j in range(150 if tier == "quick" else 6000)] + items
     extra_cov = {}
     if prop == "C09":
-        items = [("hand", j) for j in range(300 if tier == "quick" else 12000)] + items
+        items = [("hand", j) for j in range(300 if tier == "quick" else 12000)] + \
+            [("plain-input", j) for j in range(120 if tier == "quick" else 5000)] + items
     if prop == "C05":
         pi = perm_items(4)
         items = pi + [("loop", j) for j in range(200 if tier == "quick" else 8000)] + \
